@@ -626,6 +626,92 @@ fn wait_first_case(cfg: &Cfg) {
     }
 }
 
+/// Shutdown requested through the daemon's own `request_shutdown()` (once or twice) at positions of the daemon
+/// thread including "already gone": the following wait() must report success, the peer sees end-of-stream
+/// and a new connection is accepted.
+fn request_shutdown_case(cfg: &Cfg) {
+    let names = ["idle", "inside-header", "inside-body", "peer-gone-at-boundary", "peer-gone-inside-header", "peer-gone-inside-body"];
+    for (pi, pname) in names.iter().enumerate() {
+        for times in [1usize, 2] {
+            let bc = BCfg { num_queues: 1, masks: vec![1], ..BCfg::default() };
+            let mut s: Sess<V> = Sess::new(bc);
+            let peer = s.connect_stream();
+            if !raw_negotiate(&peer) {
+                report::inconclusive("negotiation");
+                return;
+            }
+            let pfd = peer.as_raw_fd();
+            let dtid = daemon_tid(&s);
+            let msg = spec::msg(spec::fe::SET_FEATURES, spec::F_VERSION1, &spec::p_u64(1 << 30));
+            let sent = [0usize, 5, 15][pi % 3];
+            if sent > 0 {
+                let _ = sys::send_all(pfd, &msg[..sent], &[]);
+            }
+            let positioned = if pi < 3 {
+                sys::wait_until(5000, || sys::outq(pfd) == 0 && dtid > 0 && sys::parked_in(dtid, &[sys::SYS_RECVMSG]))
+            } else {
+                unsafe { libc::shutdown(pfd, libc::SHUT_RDWR) };
+                sys::wait_until(5000, || dtid > 0 && !sys::threads().iter().any(|t| t.0 == dtid))
+            };
+            if !positioned {
+                report::inconclusive(&format!("request_shutdown:{pname}: position not reached"));
+                continue;
+            }
+            for _ in 0..times {
+                s.daemon.request_shutdown();
+            }
+            let done = Arc::new(AtomicBool::new(false));
+            let mut wait_result: Option<Result<(), String>> = None;
+            let mut returned = false;
+            std::thread::scope(|sc| {
+                let d2 = done.clone();
+                let daemon: &mut VhostUserDaemon<dmn::RB<V>> = &mut s.daemon;
+                let h = sc.spawn(move || {
+                    let r = daemon.wait().map_err(|e| format!("{e:?}"));
+                    d2.store(true, Ordering::SeqCst);
+                    r
+                });
+                returned = sys::wait_until(20_000, || done.load(Ordering::SeqCst));
+                if !returned {
+                    // (the positions are those of shutdown_case, which certifies a wait that cannot return)
+                    report::inconclusive(&format!("request_shutdown:{pname}: wait() still running after 20 s"));
+                    std::process::exit(report::finish());
+                }
+                wait_result = h.join().ok();
+            });
+            let mut eof = pi >= 3;
+            if pi < 3 {
+                let mut buf = [0u8; 64];
+                sys::wait_until(5000, || {
+                    if let Ok(r) = sys::recv_fds(pfd, &mut buf, libc::MSG_DONTWAIT) {
+                        eof = r.n == 0;
+                    }
+                    eof
+                });
+            }
+            report::eval(1);
+            report::count("shutdown.request_shutdown", 1);
+            report::distinct_str(&format!("reqshut:{pname}:{times}"));
+            let detail = jo! {"position" => *pname, "request_shutdown_calls" => times, "wait" => format!("{wait_result:?}"), "peer_saw_eof" => eof};
+            if !matches!(wait_result, Some(Ok(()))) {
+                report::violation(&format!("C16:shutdown:request_shutdown:{pname}:wait-returns-error"), detail, cfg.replay("reqshut"));
+            } else if !eof {
+                report::violation(&format!("C16:shutdown:request_shutdown:{pname}:peer-sees-no-end-of-stream"), detail, cfg.replay("reqshut"));
+            } else {
+                let p2 = s.connect_stream();
+                if !raw_negotiate(&p2) {
+                    report::violation(&format!("C16:shutdown:request_shutdown:{pname}:no-new-connection"), detail, cfg.replay("reqshut"));
+                } else {
+                    report::sample(&format!("reqshut{pi}"), detail);
+                }
+                drop(p2);
+                let _ = s.daemon.wait();
+            }
+            drop(peer);
+        }
+    }
+}
+
 fn s_shutdown_again(h: &Option<vhost_user_backend::ShutdownHandle>) -> Option<vhost_user_backend::ShutdownHandle> {
     h.clone()
 }
@@ -740,6 +826,53 @@ fn disconnect_cases(cfg: &Cfg) {
         report::distinct_str(&format!("reqerr:{}", report::hash_bytes(&bad)));
         if !eof || r.is_ok() {
             report::violation(&format!("C16:request-error:{}", if !eof { "peer-sees-no-end-of-stream" } else { "wait-reports-success" }), jo! {"request" => J::hex(&bad), "peer_saw_eof" => eof, "wait" => format!("{:?}", r.map_err(|e| e.to_string()))}, cfg.replay(&format!("disc:{idx}")));
+        }
+    }
+}
+
+/// C08 at the daemon: the stream ends at every byte offset of a request; `wait()` may report the clean
+/// "disconnected" only when the cut is at a message boundary (one complete exchange precedes every cut so
+/// that a retry of the read would see end-of-stream on a boundary).
+pub fn truncation_kinds(cfg: &Cfg) {
+    let reg = dmn::Reg::new(0x1000, 0x1000, 0x7000_0000, 0);
+    let msgs: Vec<(&str, Vec<u8>, bool)> = vec![
+        ("GET_FEATURES", spec::msg(spec::fe::GET_FEATURES, spec::F_VERSION1, &[]), false),
+        ("SET_VRING_NUM", spec::msg(spec::fe::SET_VRING_NUM, spec::F_VERSION1, &spec::p_vring_state(0, 8)), false),
+        ("SET_MEM_TABLE", spec::msg(spec::fe::SET_MEM_TABLE, spec::F_VERSION1, &spec::p_mem_table(&[spec::Region { gpa: reg.gpa, size: reg.size, uaddr: reg.uaddr, off: 0 }])), true),
+    ];
+    let mut idx = 0u64;
+    for (name, bytes, with_fd) in &msgs {
+        for cut in 0..bytes.len() {
+            idx += 1;
+            if !cfg.mine(idx) {
+                continue;
+            }
+            let bc = BCfg { num_queues: 1, masks: vec![1], ..BCfg::default() };
+            let mut s: Sess<V> = Sess::new(bc);
+            let peer = s.connect_stream();
+            if !raw_negotiate(&peer) {
+                report::inconclusive("negotiation");
+                continue;
+            }
+            let fds = if *with_fd { vec![reg.file.as_raw_fd()] } else { vec![] };
+            if cut > 0 {
+                let _ = sys::send_all(peer.as_raw_fd(), &bytes[..cut], &fds);
+            }
+            drop(peer);
+            let r = s.daemon.wait();
+            let shown = format!("{:?}", r.as_ref().map_err(|e| format!("{e:?}")));
+            report::eval(1);
+            report::count("truncation.wait", 1);
+            report::distinct_str(&format!("trunc:{name}:{cut}"));
+            let clean = shown.contains("Disconnected");
+            if cut > 0 && clean {
+                report::violation(
+                    &format!("C08:daemon:{}:clean-disconnect-reported-inside-a-message", if cut < 12 { "inside-header" } else { "inside-body" }),
+                    jo! {"request" => *name, "peer_closed_after_bytes" => cut, "message_length" => bytes.len(), "wait" => shown.as_str()}, cfg.replay(&format!("trunc:{idx}")));
+            }
+            if cut == 0 || cut == 5 || cut == 13 {
+                report::sample(&format!("trunc{}", cut.min(13)), jo! {"request" => *name, "peer_closed_after_bytes" => cut, "wait" => shown.as_str()});
+            }
         }
     }
 }
@@ -859,6 +992,9 @@ pub fn run(cfg: &Cfg) {
     }
     if (part.is_empty() && cfg.shard == 2 % cfg.nshards.max(1)) || part == "waitfirst" {
         wait_first_case(cfg);
+    }
+    if (part.is_empty() && cfg.shard == 3 % cfg.nshards.max(1)) || part == "reqshut" {
+        request_shutdown_case(cfg);
     }
     if (part.is_empty() && cfg.shard == 0) || part == "earlywait" {
         early_wait_case(cfg);
